@@ -2,8 +2,8 @@
 from propslib import comp_scope
 
 PROP = dict(
-    extract=["editor", "capi_keys"],
-    lean_targets=["Chewing.Props.C01", "Chewing.Props.C06CApi", "Chewing.Props.C01EditorTie"],
+    extract=["editor", "capi_keys", "capi_user"],
+    lean_targets=["Chewing.Props.C01", "Chewing.Props.C06CApi", "Chewing.Props.C01EditorTie", "Chewing.Props.C08CApi"],
     runs=[
         # pure Rust API: every operation is a transcript record the model recomputes (panic outcomes included);
         # oracle_c01.rs reports every panic / hang of an operation or of a read-only accessor
@@ -21,7 +21,7 @@ PROP = dict(
     ],
     # a crash anywhere is C01's: every editor step record is in scope (keys, select, options, layout, engine,
     # learn / unlearn, commit, clear, jump, ...)
-    scope=comp_scope("ed", "capiops"),
+    scope=comp_scope("ed", "capiops", "capiuser"),
     level="proof",
     exhaustive=False,
     rule="one evaluation = one operation of the real Editor (generated sessions: weighted grammar + a uniform stream over the 63 "
